@@ -31,7 +31,7 @@ pub fn same_length_variant(m: &[u8]) -> Option<Vec<u8>> {
 
 /// The mapping list of a batch: a pure function of (batch_seed, n); corpus files appended.
 /// Also returns the (index, index) pairs of equal-length siblings.
-pub fn batch_mappings(batch_seed: u64, n: u64, corpus: bool, large: bool) -> (Vec<Vec<u8>>, Vec<(usize, usize)>) {
+pub fn batch_mappings(batch_seed: u64, n: u64, corpus: bool, large: bool, mass: bool) -> (Vec<Vec<u8>>, Vec<(usize, usize)>) {
     let mut v: Vec<Vec<u8>> = (0..n)
         .map(|i| {
             let mut rng = Rng::new(run_seed(batch_seed, "C14.mapping", i));
@@ -47,8 +47,9 @@ pub fn batch_mappings(batch_seed: u64, n: u64, corpus: bool, large: bool) -> (Ve
         let mut rng = Rng::new(run_seed(batch_seed, "C14.big", 0));
         let cfg = gen::GenCfg { max_classes: 420, max_members: 44, pct_long_name: 1, pct_noise: 1, class_pool: 16, ..gen::GenCfg::swarm(&mut rng, 10, 10) };
         v.push(gen::gen_mapping(&mut rng, &cfg));
-        // one huge mapping (> 65 536 classes and members)
-        v.push(gen::gen_huge(&mut rng));
+        // one huge mapping (> 65 536 classes and members; 150 000 classes in the thorough tier, where
+        // 16 writers hold their string tables at the same time: process-wide budgets / pools)
+        v.push(if mass { gen::gen_huge_n(&mut rng, 150_000) } else { gen::gen_huge(&mut rng) });
         // and one with wide classes (> 64 distinct methods per class)
         let cfg = gen::GenCfg { max_classes: 6, max_members: 10, pct_wide_class: 60, class_pool: 16, ..gen::GenCfg::swarm(&mut rng, 10, 10) };
         v.push(gen::gen_mapping(&mut rng, &cfg));
@@ -161,6 +162,25 @@ fn ensure_no_aslr() -> bool {
     false
 }
 
+/// Restrict this process to the first `k` CPUs: `available_parallelism()` (what a library would size
+/// a worker pool by) is part of the process configuration.
+fn set_cpu_count(k: usize) -> usize {
+    // SAFETY: plain libc calls on a zeroed cpu_set_t
+    unsafe {
+        let mut set: libc::cpu_set_t = std::mem::zeroed();
+        if libc::sched_getaffinity(0, std::mem::size_of::<libc::cpu_set_t>(), &mut set) != 0 {
+            return 0;
+        }
+        let avail: Vec<usize> = (0..libc::CPU_SETSIZE as usize).filter(|i| libc::CPU_ISSET(*i, &set)).collect();
+        let mut want: libc::cpu_set_t = std::mem::zeroed();
+        for c in avail.iter().take(k.max(1)) {
+            libc::CPU_SET(*c, &mut want);
+        }
+        libc::sched_setaffinity(0, std::mem::size_of::<libc::cpu_set_t>(), &want);
+    }
+    std::thread::available_parallelism().map(|n| n.get()).unwrap_or(0)
+}
+
 /// `pgsim c14-child ...`: one simulated process.
 pub fn child_main(args: &[String]) -> i32 {
     let aslr_off = ensure_no_aslr();
@@ -168,6 +188,8 @@ pub fn child_main(args: &[String]) -> i32 {
     let n: u64 = arg_value(args, "--n").and_then(|s| s.parse().ok()).unwrap_or(10);
     let corpus = arg_value(args, "--corpus").map(|s| s == "1").unwrap_or(false);
     let large = arg_value(args, "--large").map(|s| s == "1").unwrap_or(false);
+    let mass_flag = arg_value(args, "--mass").map(|s| s == "1").unwrap_or(false);
+    let mass_phase = arg_value(args, "--mass-phase").map(|s| s == "1").unwrap_or(false);
     let max_threads: u64 = arg_value(args, "--threads-max").and_then(|s| s.parse().ok()).unwrap_or(4);
     let order_seed: u64 = arg_value(args, "--order-seed").and_then(|s| s.parse().ok()).unwrap_or(0);
     let dump: Option<usize> = arg_value(args, "--dump").and_then(|s| s.parse().ok());
@@ -179,17 +201,19 @@ pub fn child_main(args: &[String]) -> i32 {
                 None => (vec![m], vec![]),
             }
         }
-        None => batch_mappings(batch_seed, n, corpus, large),
+        None => batch_mappings(batch_seed, n, corpus, large, mass_flag),
     };
     // prove the entropy seam: iteration order of a probe set, and a heap address
     let probe: HashSet<u32> = (0..24u32).collect();
     let order: Vec<String> = probe.iter().map(|x| x.to_string()).collect();
     let mut rng = Rng::new(run_seed(order_seed, "C14.child", 0));
+    // the number of CPUs this process sees is drawn from its seed
+    let cpus = set_cpu_count(*rng.pick(&[1usize, 2, 3, 4, 8, 16, 16]));
     // seed-derived heap layout before the first write: addresses differ between processes,
     // but are reproducible per seed (ASLR is off)
     perturb_heap(&mut rng);
     let heap_probe: Vec<u8> = Vec::with_capacity(3000);
-    println!("PROBE order={} aslr_off={} heap={:x}", order.join("."), aslr_off as u8, heap_probe.as_ptr() as usize);
+    println!("PROBE order={} aslr_off={} heap={:x} cpus={}", order.join("."), aslr_off as u8, heap_probe.as_ptr() as usize, cpus);
 
     // history: the order in which this process serialises the mappings is part of the schedule
     let mut idxs: Vec<usize> = (0..mappings.len()).collect();
@@ -208,6 +232,15 @@ pub fn child_main(args: &[String]) -> i32 {
         emit("w1", &write_once(m));
         perturb_heap(&mut rng);
         emit("w2", &write_once(m));
+        // the same bytes at an address that is NOT 8- or 16-byte aligned (a sub-slice, a file mapped at
+        // an offset): word-at-a-time scanning makes `address % 8` an input unless it is done right
+        if m.len() < 2_000_000 {
+            let off = 1 + rng.usize_below(7);
+            let mut shifted: Vec<u8> = Vec::with_capacity(m.len() + 8);
+            shifted.resize(off, 0);
+            shifted.extend_from_slice(m);
+            emit(&format!("o{}", off), &write_once(&shifted[off..]));
+        }
         // T threads write the same mapping concurrently under the seeded baton
         if m.len() < 100_000 {
             let t = rng.range(2, max_threads.max(2)) as usize;
@@ -246,6 +279,38 @@ pub fn child_main(args: &[String]) -> i32 {
             }
         }
     }
+    // Thorough tier only ("--mass 1"): the one phase whose interleaving the simulator does NOT decide.
+    // 16 real threads leave a barrier together and each convert the 150 000-class mapping, so that
+    // their conversion phases (not only their sink calls) overlap in time: process-wide pools or
+    // budgets that are exhausted only while millions of strings are in flight at once. The writer
+    // drops its string index before its first sink call, so a scheduler at the sink seam can never
+    // make two indexes coexist; equality of the outputs is demanded whatever the schedule, so the
+    // phase cannot raise a false alarm, but a failure found here is replayed by re-running the phase,
+    // not from a recorded schedule.
+    if mass_phase {
+        if let Some((i, m)) = mappings.iter().enumerate().find(|(_, m)| m.len() > 6_000_000) {
+            let t = 16;
+            let barrier = std::sync::Barrier::new(t);
+            let outs: Vec<Result<Vec<u8>, String>> = std::thread::scope(|s| {
+                let hs: Vec<_> = (0..t)
+                    .map(|_| {
+                        let barrier = &barrier;
+                        s.spawn(move || {
+                            barrier.wait();
+                            write_once(m)
+                        })
+                    })
+                    .collect();
+                hs.into_iter().map(|h| h.join().unwrap_or_else(|_| Err("thread died".into()))).collect()
+            });
+            for (k, o) in outs.iter().enumerate() {
+                match o {
+                    Ok(o) => println!("W {} f{} {:016x} {} {}", i, k, digest_bytes(o), o.len(), implied_len(o)),
+                    Err(p) => println!("W {} f{} PANIC 0 0 {}", i, k, panic_class(p).replace(' ', "_")),
+                }
+            }
+        }
+    }
     // Address reuse: equal-length siblings are copied into ONE reused buffer and serialised back to
     // back (which sibling comes first is drawn from the seed), so a stale association between a
     // memory range and earlier content is part of the explored configuration space.
@@ -277,6 +342,8 @@ struct ChildCfg {
     n: u64,
     corpus: bool,
     large: bool,
+    mass: bool,
+    mass_phase: bool,
     max_threads: u64,
     mapping_file: Option<String>,
     dump: Option<usize>,
@@ -287,6 +354,7 @@ struct ChildOut {
     probe_order: String,
     aslr_off: bool,
     heap: String,
+    cpus: String,
     /// (mapping idx, phase) -> (digest, len, implied)
     writes: BTreeMap<(usize, String), (String, i128, i128)>,
     dumps: BTreeMap<(usize, String), String>,
@@ -300,7 +368,7 @@ fn spawn_child(cfg: &ChildCfg) -> Result<ChildOut, String> {
     let mut cmd = Command::new(exe);
     cmd.arg("c14-child")
         .args(["--batch-seed", &cfg.batch_seed.to_string(), "--n", &cfg.n.to_string()])
-        .args(["--corpus", if cfg.corpus { "1" } else { "0" }, "--large", if cfg.large { "1" } else { "0" }])
+        .args(["--corpus", if cfg.corpus { "1" } else { "0" }, "--large", if cfg.large { "1" } else { "0" }, "--mass", if cfg.mass { "1" } else { "0" }, "--mass-phase", if cfg.mass_phase { "1" } else { "0" }])
         .args(["--threads-max", &cfg.max_threads.to_string(), "--order-seed", &cfg.hash_seed.to_string()])
         .env("VERIF_HASH_SEED", cfg.hash_seed.to_string())
         .env("LD_PRELOAD", shim_path())
@@ -327,6 +395,8 @@ fn spawn_child(cfg: &ChildCfg) -> Result<ChildOut, String> {
                         co.aslr_off = v == "1";
                     } else if let Some(v) = tok.strip_prefix("heap=") {
                         co.heap = v.to_string();
+                    } else if let Some(v) = tok.strip_prefix("cpus=") {
+                        co.cpus = v.to_string();
                     }
                 }
             }
@@ -381,6 +451,12 @@ fn compare(children: &[(ChildCfg, ChildOut)], st: &mut Stats) -> Vec<(String, St
                 if phase.starts_with('r') {
                     st.inc("outputs_from_address_reuse_phase");
                 }
+                if phase.starts_with('f') {
+                    st.inc("outputs_from_free_running_overlap_phase");
+                }
+                if phase.starts_with('o') {
+                    st.inc("outputs_from_misaligned_mapping_buffer");
+                }
                 if flagged {
                     continue;
                 }
@@ -412,9 +488,9 @@ fn compare(children: &[(ChildCfg, ChildOut)], st: &mut Stats) -> Vec<(String, St
     v
 }
 
-fn run_batch(batch_seed: u64, n: u64, corpus: bool, large: bool, n_children: u64, max_threads: u64, workers: usize, mapping_file: Option<String>) -> Result<Vec<(ChildCfg, ChildOut)>, String> {
+fn run_batch(batch_seed: u64, n: u64, corpus: bool, large: bool, mass: bool, n_children: u64, max_threads: u64, workers: usize, mapping_file: Option<String>) -> Result<Vec<(ChildCfg, ChildOut)>, String> {
     let cfgs: Vec<ChildCfg> = (0..n_children)
-        .map(|k| ChildCfg { hash_seed: run_seed(batch_seed, "C14.hash", k) % 1_000_000_007, batch_seed, n, corpus, large, max_threads, mapping_file: mapping_file.clone(), dump: None })
+        .map(|k| ChildCfg { hash_seed: run_seed(batch_seed, "C14.hash", k) % 1_000_000_007, batch_seed, n, corpus, large, mass, mass_phase: mass && k < 8, max_threads, mapping_file: mapping_file.clone(), dump: None })
         .collect();
     let results: std::sync::Mutex<Vec<(usize, Result<ChildOut, String>)>> = std::sync::Mutex::new(Vec::new());
     let next = std::sync::atomic::AtomicUsize::new(0);
@@ -452,7 +528,7 @@ fn single_mapping_violates(mapping: &[u8], class: &str, seeds: &[u64]) -> Option
     let path = tmp_mapping_file(mapping, "min");
     let mut children = Vec::new();
     for hs in seeds {
-        let cfg = ChildCfg { hash_seed: *hs, batch_seed: 0, n: 0, corpus: false, large: false, max_threads: 4, mapping_file: Some(path.clone()), dump: None };
+        let cfg = ChildCfg { hash_seed: *hs, batch_seed: 0, n: 0, corpus: false, large: false, mass: false, mass_phase: false, max_threads: 4, mapping_file: Some(path.clone()), dump: None };
         match spawn_child(&cfg) {
             Ok(o) => children.push((cfg, o)),
             Err(_) => return None,
@@ -491,7 +567,7 @@ pub fn replay(doc: &Value) -> i32 {
         println!("replay C14 (whole batch: history-dependent case), hash seeds {:?}", seeds);
         let mut children = Vec::new();
         for hs in &seeds {
-            let cfg = ChildCfg { hash_seed: *hs, batch_seed, n, corpus: b["corpus"].as_bool().unwrap_or(false), large: b["large"].as_bool().unwrap_or(false), max_threads: b["max_threads"].as_u64().unwrap_or(4), mapping_file: None, dump: None };
+            let cfg = ChildCfg { hash_seed: *hs, batch_seed, n, corpus: b["corpus"].as_bool().unwrap_or(false), large: b["large"].as_bool().unwrap_or(false), mass: b["mass"].as_bool().unwrap_or(false), mass_phase: b["mass"].as_bool().unwrap_or(false), max_threads: b["max_threads"].as_u64().unwrap_or(4), mapping_file: None, dump: None };
             match spawn_child(&cfg) {
                 Ok(o) => children.push((cfg, o)),
                 Err(e) => {
@@ -520,11 +596,12 @@ pub fn main(env: &Env) -> i32 {
         return 2;
     }
     let mut rep = Report::new("C14", "exploration", env);
-    rep.expected_probes = vec!["outputs_from_concurrent_threads", "thread_schedules", "distinct_probe_set_iteration_orders", "distinct_heap_probe_addresses", "outputs_from_address_reuse_phase"];
+    rep.expected_probes = vec!["outputs_from_concurrent_threads", "thread_schedules", "distinct_probe_set_iteration_orders", "distinct_heap_probe_addresses", "outputs_from_address_reuse_phase", "outputs_from_misaligned_mapping_buffer", "distinct_cpu_counts_seen_by_processes"];
     rep.real.push("separately started OS processes (fork/exec of this binary), real std threads inside them".into());
     rep.stubs = vec![
         "process entropy: LD_PRELOAD getrandom()/getentropy() shim answering from a PRNG seeded by VERIF_HASH_SEED (decides every RandomState key in the process)".into(),
-        "address space: ASLR disabled via personality(ADDR_NO_RANDOMIZE) + seeded heap perturbation (leaked allocations)".into(),
+        "address space: ASLR disabled via personality(ADDR_NO_RANDOMIZE) + seeded heap perturbation (leaked allocations, freed holes); each mapping is also serialised from a buffer at a seeded odd offset (address % 8 != 0)".into(),
+        "CPU count: sched_setaffinity to the first k CPUs, k drawn from the seed out of {1,2,3,4,8,16} (what available_parallelism() reports)".into(),
         "thread scheduler inside each process: seeded baton, every sink write() is a scheduling point".into(),
         "write history: the order in which a process serialises the batch is drawn from its seed".into(),
     ];
@@ -536,8 +613,8 @@ pub fn main(env: &Env) -> i32 {
     let thorough = env.thorough;
     let (n_batches, n, n_children, max_threads) = if thorough { (env.scaled(12), 1500u64, 64u64, 8u64) } else { (1, env.scaled(220), 12u64, 6u64) };
     rep.rule = format!(
-        "{} batch(es); per batch {} seeded-generated mappings (0..12 classes x 0..12 members) + 3 hand-written tie/duplicate/orphan shapes + one big generated mapping (> 8192 records) + one huge one (> 65 536 classes and members) + all corpus files (incl. the 0.7 MB and 2.3 MB ones) + an equal-length sibling for every 6th mapping are serialised by {} separately started processes, each with its own hash seed, heap layout and processing order; \
-         inside a process every mapping is written twice (heap perturbed in between) and then by 2..{} threads concurrently under the seeded baton (every sink call is a scheduling point, chunk cap drawn from {{inf,64,7}}); finally equal-length siblings are copied into one reused buffer and written back to back in seed-dependent order (address reuse). \
+        "{} batch(es); per batch {} seeded-generated mappings (0..12 classes x 0..12 members) + 3 hand-written tie/duplicate/orphan shapes + one big generated mapping (> 8192 records) + one huge one (> 65 536 classes and members) + all corpus files (incl. the 0.7 MB and 2.3 MB ones) + an equal-length sibling for every 6th mapping are serialised by {} separately started processes, each with its own hash seed, heap layout, CPU count (affinity mask) and processing order; \
+         inside a process every mapping is written twice (heap perturbed in between), once more from a misaligned copy (address % 8 in 1..7), and then by 2..{} threads concurrently under the seeded baton (every sink call is a scheduling point, chunk cap drawn from {{inf,64,7}}); in the first thorough batch a 150 000-class mapping replaces the 66 000-class one and, in 8 of the processes, is additionally converted by 16 free-running threads released from a barrier (the only phase whose schedule is not decided by the simulator); finally equal-length siblings are copied into one reused buffer and written back to back in seed-dependent order (address reuse). \
          Oracle: all outputs for one mapping are byte-identical (compared by 64-bit digest + length; full bytes re-fetched on mismatch) and as long as their own header implies. \
          distinct_nontrivial = distinct (process, mapping, phase) outputs compared beyond the reference write.",
         n_batches, n, n_children, max_threads
@@ -546,10 +623,11 @@ pub fn main(env: &Env) -> i32 {
     let mut violations: Vec<Violation> = Vec::new();
     let mut probe_orders: HashSet<String> = HashSet::new();
     let mut heaps: HashSet<String> = HashSet::new();
+    let mut cpu_counts: HashSet<String> = HashSet::new();
     let mut aslr_off_all = true;
     for b in 0..n_batches {
         let batch_seed = run_seed(seed, "C14.batch", b);
-        let children = match run_batch(batch_seed, n, true, true, n_children, max_threads, env.workers, None) {
+        let children = match run_batch(batch_seed, n, true, true, thorough && b < 1, n_children, max_threads, if thorough && b < 1 { 6 } else { env.workers }, None) {
             Ok(c) => c,
             Err(e) => {
                 eprintln!("HARNESS-ERROR: {}", e);
@@ -561,6 +639,7 @@ pub fn main(env: &Env) -> i32 {
         for (_, o) in &children {
             probe_orders.insert(o.probe_order.clone());
             heaps.insert(o.heap.clone());
+            cpu_counts.insert(o.cpus.clone());
             aslr_off_all &= o.aslr_off;
             st.add("thread_schedules", o.schedules.len() as u64);
             st.digest_sum = st.digest_sum.wrapping_add(o.raw_digest);
@@ -579,13 +658,13 @@ pub fn main(env: &Env) -> i32 {
             }));
         }
         for (class, message, idx, a, bside) in vs.into_iter().take(3) {
-            let (mappings, _) = batch_mappings(batch_seed, n, true, true);
+            let (mappings, _) = batch_mappings(batch_seed, n, true, true, thorough && b < 1);
             let mapping = mappings.get(idx).cloned().unwrap_or_default();
             let seeds = vec![a.0, bside.0];
             // minimise: does the mapping alone (no history) show it? then shrink its lines.
             let mut case = json!({
                 "mode": "batch",
-                "batch": {"batch_seed": batch_seed.to_string(), "n": n, "corpus": true, "large": true, "max_threads": max_threads},
+                "batch": {"batch_seed": batch_seed.to_string(), "n": n, "corpus": true, "large": true, "mass": thorough && b < 1, "max_threads": max_threads},
                 "hash_seeds": seeds, "mapping_index": idx, "phases": [a.1, bside.1], "mapping": bytes_to_json(&mapping),
             });
             let mut msg = message.clone();
@@ -613,6 +692,7 @@ pub fn main(env: &Env) -> i32 {
     }
     st.add("distinct_probe_set_iteration_orders", probe_orders.len() as u64);
     st.add("distinct_heap_probe_addresses", heaps.len() as u64);
+    st.add("distinct_cpu_counts_seen_by_processes", cpu_counts.len() as u64);
     rep.extra.insert("aslr_disabled_in_all_children".into(), json!(aslr_off_all));
     let evaluations = st.get("outputs_compared");
     rep.write(&st, evaluations.max(1), evaluations.saturating_sub(st.get("mappings")).max(2), violations.len(), None);
@@ -638,7 +718,7 @@ pub fn main(env: &Env) -> i32 {
 
 pub fn miri_main(args: &[String]) -> i32 {
     let wseed: u64 = arg_value(args, "--wseed").and_then(|s| s.parse().ok()).unwrap_or(1);
-    let mut mappings: Vec<Vec<u8>> = batch_mappings(wseed, 0, false, false).0;
+    let mut mappings: Vec<Vec<u8>> = batch_mappings(wseed, 0, false, false, false).0;
     let mut rng = Rng::new(run_seed(wseed, "C14.miri", 0));
     for _ in 0..2 {
         mappings.push(gen::gen_case(&mut rng, 3, 5).1);
